@@ -1414,6 +1414,24 @@ pub fn run_c04(ctx: &mut Ctx) {
             c04_inconsistent_header(rep, &q, maxsz, &mut r, &format!("msg: {} | header TKL {} vs token of {} bytes | seed={} shard={} case={}", m.describe(), q.header.get_token_length(), q.get_token().len(), seed, shard, case));
         }
     }
+    // codes held as an enum variant that the byte conversion would never produce (Reserved(b) for a
+    // byte that has a name; in particular Reserved(0) next to Empty): judged by self-consistency too
+    if shard == 0 || san {
+        for b in [0u8, 1, 2, 0x45, 0x84, 0xa0, 0x1f, 0xff] {
+            for tkl in [0usize, 8] {
+                for plen in [0usize, 1, 100, 1275, 1300] {
+                    let mut q = Packet::new();
+                    q.header.code = MessageClass::Reserved(b);
+                    q.header.message_id = 7;
+                    q.set_token(vec![3; tkl]);
+                    q.add_option(CoapOption::UriPath, b"r".to_vec());
+                    q.payload = vec![0x44; plen];
+                    c04_inconsistent_header(rep, &q, maxsz, &mut r, &format!("code held as MessageClass::Reserved({:#04x}), token {}B, one option, payload {}B", b, tkl, plen));
+                    rep.count("non_canonical_code_variants");
+                }
+            }
+        }
+    }
     rep.floor("inconsistent_header_limit_decisions", 1);
     rep.floor("packets_with_spare_capacity", 1);
     // oversize option values: must be refused, never emitted with a wrong length
